@@ -1285,23 +1285,46 @@ def rule_reuse(prog):
         guard_ok = False
         for b in scope:
             defs = _let_defs(b["body"])
+
+            def cond_inspects(cond):
+                conds = [cond]
+                for pth in hir.nodes(cond, "Path"):
+                    pl = hir.path_local(pth)
+                    if pl and pl["id"] in defs:
+                        conds.append(defs[pl["id"]])
+                for cd in conds:
+                    for m_ in hir.nodes(cd):
+                        pats = [a_["pat"] for a_ in m_["arms"]] if m_.get("k") == "Match" else [m_["pat"]] if m_.get("k") == "LetExpr" else []
+                        if any(v.endswith("ErrorMessage::ParseErrorMessage") for pt in pats for v in hir.pat_variants_all(pt)):
+                            return True
+                return False
+
+            def negated(cond):
+                cond = hir.strip(cond)
+                return cond.get("k") == "Unary" and str(cond.get("op")) in ("!", "Not", "not")
+
             for x, parents in hir.walk(b["body"]):
                 if x is not advances[0]:
                     continue
                 chain = list(parents) + [x]
                 for i_, pr in enumerate(chain[:-1]):
-                    if pr.get("k") != "If" or chain[i_ + 1] is not pr.get("else"):
-                        continue
-                    conds = [pr["cond"]]
-                    for pth in hir.nodes(pr["cond"], "Path"):
-                        pl = hir.path_local(pth)
-                        if pl and pl["id"] in defs:
-                            conds.append(defs[pl["id"]])
-                    for cd in conds:
-                        for m_ in hir.nodes(cd):
-                            pats = [a_["pat"] for a_ in m_["arms"]] if m_.get("k") == "Match" else [m_["pat"]] if m_.get("k") == "LetExpr" else []
-                            if any(v.endswith("ErrorMessage::ParseErrorMessage") for pt in pats for v in hir.pat_variants_all(pt)):
-                                guard_ok = True
+                    nxt = chain[i_ + 1]
+                    if pr.get("k") == "If" and cond_inspects(pr["cond"]):
+                        # else side of `if has_error || ..`, or then side of `if !(has_error || ..)`
+                        if nxt is pr.get("else") and not negated(pr["cond"]):
+                            guard_ok = True
+                        if nxt is pr.get("then") and negated(pr["cond"]):
+                            guard_ok = True
+                    if pr.get("k") == "Block":
+                        # early-return form: an earlier statement `if has_error || .. { return .. }`
+                        kids = list(pr["stmts"]) + ([pr["expr"]] if pr.get("expr") else [])
+                        idx = [j for j, k_ in enumerate(kids) if k_ is nxt]
+                        for k_ in kids[:idx[0]] if idx else []:
+                            for iff in ([k_] if k_.get("k") == "If" else [hir.stmt_inner(k_)] if k_.get("k") in ("Semi", "Expr") else []):
+                                iff = hir.strip(iff) if iff else None
+                                if iff is not None and iff.get("k") == "If" and cond_inspects(iff["cond"]) and not negated(iff["cond"]) and \
+                                        any(True for _ in hir.nodes(iff["then"], "Ret")):
+                                    guard_ok = True
         out.add("parser::utility::affected", "a node that contains a syntax error is rebuilt, not reused", guard_ok, c.loc(advances[0]["sp"]),
                 "error recovery skips tokens up to the next synchronisation token, so the extent of an error node depends on any number "
                 "of following tokens, but a node is only rebuilt if the change touches its range (+1): `else` in front of `j := 2;` stays "
